@@ -155,6 +155,34 @@ pub fn run_history(tr: &mut Trace, c: &Conc, r: &mut Rng, t: i32, tx: i32, hist:
     } else {
         W::Mem(Writer::new(ShapeWriter::with_shx(shp.clone(), shx.clone()), table_builder().build_with_dest(dbf.clone())))
     };
+    // x...x o...o on an even run: the o's go through the consuming bulk call (refused at its first
+    // pair when an x came first: the file's type is then the other one)
+    let nx = hist.chars().take_while(|ch| *ch == 'x').count();
+    let bulk_after_x = nx > 0 && nx < hist.len() && hist.chars().skip(nx).all(|ch| ch == 'o') && id % 2 == 0;
+    if bulk_after_x {
+        for i in 0..nx {
+            let res = res_str(guarded(|| match &mut w {
+                W::Mem(w) => with_inner!(&built_other[i], s => w.write_shape_and_record(s, &idx_record(i + 1)), Ok(())),
+                W::File(w) => with_inner!(&built_other[i], s => w.write_shape_and_record(s, &idx_record(i + 1)), Ok(())),
+                W::Gone => Ok(()),
+            }));
+            tr.emit(json!({"ev": "pair", "k": i + 1, "kind": "x", "t": tx, "res": res}));
+        }
+        let rows: Vec<dbase::Record> = (nx + 1..=n).map(idx_record).collect();
+        let res = res_str(guarded(|| {
+            crate::for_type!(t, S, {
+                let shapes_s: Vec<S> = built_good[nx..].iter().map(|s| S::try_from(clone_shape(s)).ok().unwrap()).collect();
+                let pairs = shapes_s.iter().zip(rows.iter());
+                match std::mem::replace(&mut w, W::Gone) {
+                    W::Mem(w) => w.write_shapes_and_records(pairs),
+                    W::File(w) => w.write_shapes_and_records(pairs),
+                    W::Gone => Ok(()),
+                }
+            })
+        }));
+        // the bulk call stops at its first refused pair: that pair is the only one attempted
+        tr.emit(json!({"ev": "pair", "k": nx + 1, "kind": "o", "t": t, "res": res, "consuming": true}));
+    }
     let consuming = !hist.is_empty() && hist.chars().all(|ch| ch == 'o') && id % 2 == 0;
     if consuming {
         // Writer::write_shapes_and_records consumes the writer: all pairs in one call
@@ -175,7 +203,7 @@ pub fn run_history(tr: &mut Trace, c: &Conc, r: &mut Rng, t: i32, tx: i32, hist:
         }
     }
     for (i, ch) in hist.chars().enumerate() {
-        if consuming {
+        if consuming || bulk_after_x {
             break;
         }
         let k = i + 1;
